@@ -248,7 +248,7 @@ def obligations(tier: str):
     # (tree crossover over the list fixture f2: 870 paths without a failing one, not exhausted in 2000 s - dropped)
     for rep in ("ge", "sge", "dsge"):
         gl = 6 if rep == "ge" else 2
-        for cls in ("RI", "RD", "RD2", "RS") + (("RW", "RV", "RL") if T else ())  # RF: a float computed from symbolic genes never confirms (CrossHair's real-based float model):
+        for cls in ("RI", "RD", "RD2", "RS") + (("RW", "RV", "RL") if T else ()):  # RF: a float computed from symbolic genes never confirms (CrossHair's real-based float model)
             pipe(f"{rep}_f5_{cls}_create", fixture="f5", grammar_fn="g_" + cls, rep=rep, decider="grow", max_depth=3, gene_length=gl)
         pipe(f"{rep}_f2_create", fixture="f2", rep=rep, decider="grow", max_depth=2 if rep != "dsge" else 3, gene_length=gl)
     pipe("stackp_f1p_postponed_annotations_create", fixture="f1p", rep="stack", gene_length=6 if T else 4, failures_limit=1, gene_fuel=12 if T else 7, timeout=150)
